@@ -195,7 +195,7 @@ typedef struct pv_kdfrec {
 #define PV_MAXEV 96
 #define PV_MAXKDF 4
 #define PV_MAXLIVE 4096
-typedef struct pv_block { void* ptr; size_t size; uint64_t call; } pv_block;
+typedef struct pv_block { void* ptr; void* base; size_t size; uint64_t call; } pv_block;
 
 typedef struct pv_world {
     /* scripted behaviour */
@@ -211,7 +211,8 @@ typedef struct pv_world {
     long fail_countdown;            /* >0: the k-th allocation request from now fails */
     uint64_t fail_mask; int fail_mask_n;
     int reuse_mode;                 /* 1: the most recently freed block is handed out again by the next request of the same size (address reuse) */
-    void* cache_ptr; size_t cache_size;
+    void* cache_ptr; void* cache_base; size_t cache_size;
+    int align8_mode;                /* 1: blocks are 8-byte aligned but not 16-byte aligned (all that the seed object needs) */
     int yield_pct;                  /* C20: probability of sched_yield inside callbacks */
     pv_rng yield_rng;
     /* per-call log */
@@ -299,6 +300,10 @@ int pv_overlap(int a, int b, const unsigned** idx_out);
 /* checksum-valid phrase coefficients (coin applied) whose 16 words all belong to overlap(A,B) and whose seed is
  * loadable under `enabled`; false if none found within the retry budget */
 bool pv_gen_ambiguous(pv_rng* r, int a, int b, unsigned coin, unsigned enabled, unsigned d[16], pv_mseed* seed_out);
+/* checksum-valid, loadable phrase of language L whose decomposed form (words joined by single spaces) is exactly
+ * `target` bytes long; returns false if the search fails (target unreachable or unlucky) */
+bool pv_gen_exact_length(pv_rng* r, const pv_mlang* L, unsigned coin, long target, unsigned enabled, unsigned d[16], pv_mseed* seed_out);
+void pv_lang_length_range(const pv_mlang* L, long* min_total, long* max_total);
 /* the expected KDF stub output for given arguments (mode 0) */
 void pv_kdf_mix(const uint8_t* pw, size_t pwlen, const uint8_t* salt, size_t saltlen, uint64_t iterations, uint8_t* key, size_t keylen);
 
